@@ -2,7 +2,9 @@
 
 Protocol:  new cap=N exp=F cmp=num|mod [fail=k] | new_default [cmp=..] | push v [fail=1] | top |
            pop [null=1] | destroy | destroy_cb
-cmp=num: numeric order; cmp=mod: order of v % 10 (ties between distinguishable elements).
+cmp=num: numeric order; cmp=mod: order of v % 10 (ties between distinguishable elements); cmp=diff: the
+64-bit difference clamped to int.  Values include pairs exactly 2^31, 2^32, 2^63 apart and values near 2^64-1;
+`pop null=1` (out == NULL) occurs in every focus.
 
 focus=None: push/top/pop only (C10), all capacities/factors; "growth": push-dominated from small
 capacities; "reject": empty pops/tops and invalid capacities; "fault": pushes that grow;
@@ -26,9 +28,13 @@ def pick_value(rng, mode):
         return 0
     if r < 0.45:
         return rng.randint(1, 9)        # duplicates likely
-    if r < 0.9:
+    if r < 0.8:
         return rng.randint(1, 99)
-    return rng.choice([2**31, 2**63, 2**64 - 1, 1000, 1001])
+    # pairs that differ by exactly 2^31, 2^32, 2^63 (a comparator truncating a difference to int would
+    # order them wrongly or call them equal) and values near 2^64 - 1
+    v = rng.randint(1, 9)
+    return rng.choice([v + 2**31, v + 2**32, v + 2**63, v + 2**31 + 2**32, 2**64 - 1 - v, 2**64 - 1, 2**63 - v,
+                       2**32 - v, 2**31 - v, v])
 
 
 def sparsify(hist, step):
@@ -89,6 +95,12 @@ class PqueueGen:
         for perm in itertools.permutations([1, 2, 2, 3, 4] if tier == "quick" else [1, 2, 2, 3, 4, 5]):
             out.append(["new cap=2 exp=2 cmp=num"] + [f"push {v}" for v in perm] + ["pop"] * (len(perm) + 1) + ["destroy"])
         out.append(["new_default", "push 4", "push 9", "top", "pop", "pop", "pop", "destroy"])
+        # values 2^31 / 2^32 / 2^63 apart under the three comparators, drained with and without out-pointer
+        big = [5, 5 + 2**32, 5 + 2**31, 5 + 2**63, 2**64 - 1, 7, 7 + 2**32, 2**64 - 2]
+        for cmpm in ("num", "diff", "mod"):
+            out.append([f"new cap=2 exp=2 cmp={cmpm}"] + [f"push {v}" for v in big] +
+                       ["top", "pop", "pop null=1", "pop", "pop", "pop null=1", "pop", "pop", "pop", "pop", "destroy"])
+        out.append(["new cap=4 exp=2 cmp=num", "push 3", "push 8", "pop null=1", "top", "pop null=1", "pop null=1", "destroy"])
         if focus in ("reject", "all"):
             out.append(["new cap=0 exp=2", "destroy"])
             for cap in (2**61 - 1, 2**61, 2**62, 2**63, 2**64 - 1):
@@ -107,7 +119,7 @@ class PqueueGen:
         for _ in range(n):
             cap = rng.choice([1, 1, 2, 3, 4, 5, 8, 16])
             exp = rng.choice(FACTORS)
-            mode = rng.choice(["num", "mod"])
+            mode = rng.choice(["num", "mod", "diff"])
             if focus == "growth":
                 cap = rng.choice([1, 2, 3])
             ops = [f"new cap={cap} exp={exp} cmp={mode}"]
@@ -139,7 +151,7 @@ class PqueueGen:
                 elif r < p_push + 0.08:
                     ops.append("top")
                 else:
-                    ops.append("pop null=1" if focus == "all" and rng.random() < 0.1 else "pop")
+                    ops.append("pop null=1" if rng.random() < 0.12 else "pop")   # out == NULL in every focus
                 if rng.random() < 0.04:
                     p_push = rng.choice([0.1, 0.5, 0.95])
             if rng.random() < 0.5:
